@@ -258,6 +258,18 @@ def oracle(prop, chk, case, h, inv, recs, live):
                     chk.fail('identity:origin-field', case,
                              f'logical file {lf}: object {st} {n!r} has origin {o}, which is neither an ORIGIN of the '
                              f'logical file {sorted(origin_refs)} nor chosen by the user')
+    if prop == 'C18':
+        # isolation of origins: no object carries the reference of an origin that exists only in another logical file
+        refs = [{o for (st, sn, objs) in inv[lf] if st == 'ORIGIN' for (n, o, c) in objs} for lf in range(n_lf)]
+        for lf in range(n_lf):
+            explicit = {op['oref'] for op in h['ops'] if op['lf'] == lf and op['oref']}
+            for (st, sn, objs) in inv[lf]:
+                for (n, o, c) in objs:
+                    foreign = [k for k in range(n_lf) if k != lf and o in refs[k]]
+                    if o not in refs[lf] and o not in explicit and foreign:
+                        chk.fail('isolation:origin-of-another-logical-file', case,
+                                 f'logical file {lf}: object {st} {n!r} carries origin {o}, the reference of an ORIGIN '
+                                 f'that exists only in logical file {foreign[0]} (own origins: {sorted(refs[lf])})')
     if prop == 'C09':
         for lf, sets in enumerate(inv):
             keys = [(st, sn) for (st, sn, objs) in sets]
@@ -380,8 +392,24 @@ def oracle_references(chk, r):
                                 key = (bytes.fromhex(tt).decode(), int(oo), int(cc), bytes.fromhex(nn).decode() if nn != '-' else '')
                                 if key not in defs:
                                     problems.append(f'{x["set_type"]} {o["name"]!r} {lab}: object reference {key} resolves to no object of the logical file')
-            elif not x['eflr']:
-                pass
+        # the reference that opens an indirectly formatted record: exactly one FRAME / NO-FORMAT object defined earlier
+        # in the same logical file
+        so_far = {}
+        for x in recs_lf:
+            if x['eflr']:
+                if not x.get('undecodable'):
+                    for o in x['objects']:
+                        k = (x['set_type'], o['origin'], o['copy'], o['name'])
+                        so_far[k] = so_far.get(k, 0) + 1
+            else:
+                ref = decode_obname(x['body'])
+                want_type = {0: 'FRAME', 1: 'NO-FORMAT'}.get(x['type'])
+                if ref is None or want_type is None:
+                    problems.append(f'indirectly formatted record of type {x["type"]} opens with no readable object name')
+                elif so_far.get((want_type,) + ref, 0) != 1:
+                    problems.append(f'indirectly formatted record refers to {want_type} {ref}, defined '
+                                    f'{so_far.get((want_type,) + ref, 0)} times before it (defined so far: '
+                                    f'{sorted(d for d in so_far if d[0] == want_type)[:4]})')
         if problems:
             chk.fail('references:unresolved', r.case, f'logical file {li}: ' + '; '.join(problems[:5]))
     # the expected targets (the objects the user passed) are compared by the C05 fidelity oracle
